@@ -45,6 +45,7 @@ func sliceIs(st *State, e, root *Expr, lo Lin, hi *Lin) (bool, string) {
 
 func checkC16(c *Check) {
 	c.updateFraming("C16.1 section-slices", "C16.2 guards-before-callbacks")
+	c.specConstants("C16.2 spec-constants", "NOTIF_CODE_UPDATE_MESSAGE_ERR", "NOTIF_SUBCODE_MALFORMED_ATTR_LIST", "NOTIF_SUBCODE_UNRECOGNIZED_WELL_KNOWN_ATTR", "NOTIF_SUBCODE_MISSING_WELL_KNOWN_ATTR", "NOTIF_SUBCODE_ATTR_FLAGS_ERR", "NOTIF_SUBCODE_ATTR_LEN_ERR", "NOTIF_SUBCODE_INVALID_ORIGIN_ATTR", "NOTIF_SUBCODE_INVALID_NEXT_HOP_ATTR", "NOTIF_SUBCODE_OPTIONAL_ATTR_ERR", "NOTIF_SUBCODE_INVALID_NETWORK_FIELD", "NOTIF_SUBCODE_MALFORMED_AS_PATH", "PATH_ATTR_MP_REACH_NLRI", "PATH_ATTR_MP_UNREACH_NLRI")
 	c.attrIteration("C16.1 attribute-slices", "C16.3 duplicates-and-overruns")
 	c.bitmapAgreement("C16.3 bitmap-agreement")
 	c.decoderStateless("C16.3 decoder-stateless")
